@@ -163,6 +163,7 @@ def run(ctx):
     wd = ctx["wd"]
     n = 150 if quick else 4000
     cases = list(CORPUS) + [gen_world_case(rng, "g%d" % i, PROFILE_NET) if i % 3 else gen_parked_case(rng, "p%d" % i) for i in range(n)]
+    cases += [gen_bulk_case(rng, "bulk%d" % i) for i in range(3 if quick else 40)]       # more entries than any cap or packet
     binary = build_harness("pkg/gossip", dirs=["gossip"])
     outs = run_world(binary, wd, cases)
     kf = {k["sig"]: k for k in known_findings() if k["property"] == ID and k["kind"] == "known"}
